@@ -22,7 +22,7 @@ from . import ir, ptr, repo
 LEVEL = "other"
 MANIFEST = {
     "text": "decides D1 share-count consistency of every masked-word primitive call, D2 linear masked-word "
-            "operations preserve the encoded value for every value of the random source and refresh every share "
+            "operations (incl. replace for every size) preserve the encoded value for every value of the random source and refresh every share "
             "(GF(2)-affine interpretation), D3 fresh randomness before every key-share permutation, D4 a masked "
             "key object (fresh or re-randomised) extracts to its key and masked AEAD with it equals the "
             "specification, D5 each loop iteration of the x86-64 assembly ascon_x2/x3/x4_permute and D6 of the C "
